@@ -3,8 +3,11 @@ Tie: hand model coq/Model/Bf2Import.v + Model/Bf2Str.v (tables from Gen/Consts.v
 translator regenerates from bf3file.py / hwcids.py) + correspondence on unit level
 (bf2_unpack_payload, bf2_convert_payload, exec_bf2instrs, pfid2_filter_to_str, annotations,
 hex2bin, parse_bf2_file), token level (bf2_import with the parser replaced by a token list)
-and text level (bf2_import on grammar-generated BF2 texts).  The search evaluates the property
-on the real implementation against the memory image the generator started from."""
+and text level (bf2_import on grammar-generated BF2 texts; whole files of the text grammar of
+Model/Bf2Render.v - header comments, instruction lines, data groups - whose text is checked in Coq to be
+render_file's, plus a stream violating one clause of item_ok per file).  The search evaluates the property
+on the real implementation against the memory image the generator started from, and the text round trip
+(C13_text_file / C13_text_lines) against the items the text was rendered from."""
 import copy
 import io
 import re
@@ -12,8 +15,8 @@ import re
 from vlib import qN, qZ, qbytes, qlist, qopt, qres, qstr, qbool, run_impl, canon_exc
 
 GEN_DEPS = ("Consts.v", "gen_consts", "TagTypes.v", "gen_tagtypes")
-MODEL_TARGETS = ["Model/Bf2Import.vo"]
-IMPORTS = "From Bec2 Require Import Gen.Consts Model.Bf2Str Model.Bf2Import."
+MODEL_TARGETS = ["Model/Bf2Import.vo", "Model/Bf2Render.vo"]
+IMPORTS = "From Bec2 Require Import Gen.Consts Model.Bf2Str Model.Bf2Import Model.Bf2Render."
 
 # ---------------------------------------------------------------------------
 # What the property text says about tag types (written down here, not read from the
@@ -1016,6 +1019,357 @@ def corr_text(cs, n):
                (mut, enforce, text), judge=jd)
 
 
+# ---------------------------------------------------------------------------
+# text grammar (Model/Bf2Render.v): items, their rendering, well-formedness and the tokens they
+# stand for, written here from the BF2 grammar (the Python twin of render_file / item_okb /
+# tokens_of; the correspondence checks inside Coq that the twin's text IS render_file's text and
+# that the twin's verdict IS item_okb's, so the text given to the real parser is the model's).
+#   ("H", name, value)            ##name: value
+#   ("I", name, [(k, v), ...])    #>name  |  #>name k=v,k=v
+#   ("D", [line, ...])            :0000FE00 / :hex(raw) ... / :0000FF00
+
+G_WS = "\t\n\x0b\x0c\r\x1c\x1d\x1e\x1f \x85\xa0"     # white space among the code points 0..255
+
+
+def g_render(items, eol, final=True, blanks=None):
+    """blanks: optional callable giving white space (no line feed) to put before each line end"""
+    out = []
+    for it in items:
+        if it[0] == "H":
+            out.append("##" + it[1] + ": " + it[2])
+        elif it[0] == "I":
+            out.append("#>" + it[1] + ((" " + ",".join(k + "=" + v for k, v in it[2])) if it[2] else ""))
+        else:
+            out.append(":0000FE00")
+            out += [":" + l[3].hex().upper() for l in it[1]]
+            out.append(":0000FF00")
+    if blanks:
+        out = [b + blanks() for b in out]
+    return "".join(b + eol for b in out) if final else eol.join(out)
+
+
+G_BLANKS = ["", "", " ", "\t", "  ", " \t", "\x0b", "\x0c", "\r", "\x1c", "\x1f", "\x85", "\xa0", "\xa0 \t\r"]
+
+
+def g_line_ok(l):
+    t, ndx, tag, raw = l
+    return (0 <= ndx < 65536 and 0 <= t < 254 and len(tag) < 256
+            and raw[:4 + len(tag)] == ndx.to_bytes(2, "big") + bytes([t, len(tag)]) + tag)
+
+
+def g_item_ok(it):
+    def lead_ok(x):
+        return not x or x[0] not in G_WS
+
+    def trail_ok(x):
+        return not x or x[-1] not in G_WS
+    if it[0] == "H":
+        n, v = it[1], it[2]
+        return (":" not in n and "\n" not in n and n != "load"
+                and ":" not in v and "\n" not in v and lead_ok(v) and trail_ok(v))
+    if it[0] == "I":
+        n = it[1]
+        if not n or any(c in G_WS for c in n) or n == "load":
+            return False
+        return all(not any(c in k for c in "\n,=") and lead_ok(k) and not any(c in v for c in "\n,=") and trail_ok(v)
+                   for k, v in it[2])
+    return bool(it[1]) and all(g_line_ok(l) for l in it[1])
+
+
+def g_tokens(items):
+    out = []
+    for it in items:
+        if it[0] == "H":
+            out.append((it[1], it[2]))
+        elif it[0] == "I":
+            d = {}
+            for k, v in it[2]:
+                d[k] = v
+            out.append((it[1], d))
+        else:
+            out.append(("load", list(it[1])))
+    return out
+
+
+def qitem(it):
+    if it[0] == "H":
+        return "(IHeader %s %s)" % (qs(it[1]), qs(it[2]))
+    if it[0] == "I":
+        return "(IInstr %s %s)" % (qs(it[1]), qlist(["(%s, %s)" % (qs(k), qs(v)) for k, v in it[2]], "(str * str)"))
+    return "(IData %s)" % qlines(it[1])
+
+
+def qitems(items):
+    return qlist([qitem(it) for it in items], "item")
+
+
+def items_json(items):
+    return [[it[0], it[1], [list(kv) for kv in it[2]]] if it[0] == "I" else
+            [it[0], it[1], it[2]] if it[0] == "H" else
+            [it[0], [[l[0], l[1], l[2].hex(), l[3].hex()] for l in it[1]]] for it in items]
+
+
+def items_from_json(j):
+    out = []
+    for it in j:
+        if it[0] == "H":
+            out.append(("H", it[1], it[2]))
+        elif it[0] == "I":
+            out.append(("I", it[1], [tuple(kv) for kv in it[2]]))
+        else:
+            out.append(("D", [(l[0], l[1], bytes.fromhex(l[2]), bytes.fromhex(l[3])) for l in it[1]]))
+    return out
+
+
+def items_of_file(header, secs):
+    """the items of a file from gen_file (same layout as render_file(..., junk=False))"""
+    def one(n, p):
+        return ("I", n, list(p.items())) if isinstance(p, dict) else ("H", n, p)
+    items = [one(n, p) for n, p in header]
+    for s in secs:
+        items += [one(n, p) for n, p in s.instrs]
+        items += [("D", list(g)) for g in s.groups]
+        if s.reboot:
+            items.append(("I", "REBOOT", []))
+    return items
+
+
+G_ALPHA = "aZ09 _-.\t\r=,:#>!*/\xe9\xa0\x85\x1c" + "abcXYZ0123456789" * 2
+G_NAMES = ["REBOOT", "CRC", "SELECT", "CHECK_FWVER", "Firmware", "Creator", "Bf3Update", "SELECT_IF", "Load", "LOAD", "loa", "loadx",
+           "x", "#", ">", "A=B", "a,b", "\xe4\xf6"]
+
+
+def g_str(r, forbidden, lead=True, trail=True, nonempty=False, maxlen=12):
+    """random string over G_ALPHA minus `forbidden`; lead/trail False: may not start/end with white space"""
+    n = r.choice([0, 1, 1, 2, 3, 5, 8, r.randrange(0, maxlen + 1)])
+    if nonempty:
+        n = max(n, 1)
+    alpha = [c for c in G_ALPHA if c not in forbidden]
+    t = [r.choice(alpha) for _ in range(n)]
+    solid = [c for c in alpha if c not in G_WS]
+    if t and not lead and t[0] in G_WS:
+        t[0] = r.choice(solid)
+    if t and not trail and t[-1] in G_WS:
+        t[-1] = r.choice(solid)
+    return "".join(t)
+
+
+def g_data_item(r):
+    lines = []
+    for i in range(r.choice([1, 1, 2, 3, 6])):
+        t = r.choice([0x35, 0x36, 0x39, 0x40, 0x70, 0x84, 0x85, 0x34, 0x48, 0, 1, 253, r.randrange(0, 254)])
+        if r.random() < 0.6:
+            n = r.choice([0, 1, 4, 16, r.randrange(0, 40)])
+            tag = bytes([n + 2]) + r.randrange(0x10000).to_bytes(2, "big") + rbytes(r, n)
+        else:
+            tag = rbytes(r, r.choice([0, 1, 2, 3, 9, 255]))
+        lines.append(line_of(r.choice([i, 0, 0xFFFF, r.randrange(0x10000)]), t, tag, rbytes(r, r.choice([0, 0, 0, 1, 2]))))
+    return ("D", lines)
+
+
+def g_header_item(r):
+    name = r.choice(G_NAMES) if r.random() < 0.5 else g_str(r, ":\n")
+    if name == "load":
+        name = "Load"
+    return ("H", name, g_str(r, ":\n", lead=False, trail=False, maxlen=24))
+
+
+def g_instr_item(r):
+    name = r.choice(G_NAMES) if r.random() < 0.5 else g_str(r, G_WS, nonempty=True)
+    if name == "load":
+        name = "load2"
+    ps = []
+    for _ in range(r.choice([0, 0, 1, 1, 2, 3, 5])):
+        k = r.choice(["FILTER", "PROTOCOL", "VERSIONDESC", "A", ""]) if r.random() < 0.5 else g_str(r, "\n,=", lead=False)
+        ps.append((k, g_str(r, "\n,=", trail=False)))
+    if ps and r.random() < 0.2:
+        ps.append((ps[0][0], g_str(r, "\n,=", trail=False)))      # a repeated key
+    return ("I", name, ps)
+
+
+def g_random_items(r):
+    items = []
+    for _ in range(r.choice([1, 1, 2, 3, 5, 8])):
+        items.append(r.choice([g_header_item, g_header_item, g_instr_item, g_instr_item, g_data_item])(r))
+    return items
+
+
+def g_break(r, items):
+    """violate exactly one clause of the grammar's side condition in one item; returns (what, items)"""
+    items = list(items)
+    kind = r.choice("HHHIIIIID")
+    idx = [k for k, it in enumerate(items) if it[0] == kind]
+    if not idx:
+        items.insert(r.randrange(len(items) + 1), {"H": ("H", "Creator", "tool"), "I": ("I", "X", [("a", "v")]),
+                                                   "D": ("D", [line_of(0, 0x35, b"\x03\x00\x00A")])}[kind])
+        idx = [k for k, it in enumerate(items) if it[0] == kind]
+    k = r.choice(idx)
+    it = items[k]
+    ws = r.choice(G_WS.replace("\n", ""))
+
+    def ins(x, c):
+        p = r.randrange(len(x) + 1)
+        return x[:p] + c + x[p:]
+    if kind == "H":
+        what = r.choice(["name:", "name-nl", "name-load", "value:", "value-nl", "value-lead", "value-trail"])
+        n, v = it[1], it[2]
+        if what == "name:":
+            n = ins(n, ":")
+        elif what == "name-nl":
+            n = ins(n, "\n")
+        elif what == "name-load":
+            n = "load"
+        elif what == "value:":
+            v = ins(v, ":")
+        elif what == "value-nl":
+            v = ins(v, "\n")
+        elif what == "value-lead":
+            v = ws + v
+        else:
+            v = v + ws
+        items[k] = ("H", n, v)
+    elif kind == "I":
+        n, ps = it[1], list(it[2])
+        what = r.choice(["name-empty", "name-ws", "name-load", "key-nl", "key,", "key=", "key-lead",
+                         "val-nl", "val,", "val=", "val-trail"])
+        if what.startswith(("key", "val")) and not ps:
+            ps = [("a", "v")]
+        j = r.randrange(len(ps)) if ps else 0
+        if what == "name-empty":
+            n = ""
+        elif what == "name-ws":
+            n = ins(n or "x", r.choice(G_WS))
+        elif what == "name-load":
+            n = "load"
+        elif what == "key-nl":
+            ps[j] = (ins(ps[j][0], "\n"), ps[j][1])
+        elif what == "key,":
+            ps[j] = (ins(ps[j][0], ","), ps[j][1])
+        elif what == "key=":
+            ps[j] = (ins(ps[j][0], "="), ps[j][1])
+        elif what == "key-lead":
+            ps[j] = (ws + ps[j][0], ps[j][1])
+        elif what == "val-nl":
+            ps[j] = (ps[j][0], ins(ps[j][1], "\n"))
+        elif what == "val,":
+            ps[j] = (ps[j][0], ins(ps[j][1], ","))
+        elif what == "val=":
+            ps[j] = (ps[j][0], ins(ps[j][1], "="))
+        else:
+            ps[j] = (ps[j][0], ps[j][1] + ws)
+        items[k] = ("I", n, ps)
+    else:
+        ls = list(it[1])
+        what = r.choice(["empty", "ndx", "typeFE", "typeFF", "taglen", "raw"])
+        j = r.randrange(len(ls))
+        t, ndx, tag, raw = ls[j]
+        if what == "empty":
+            ls = []
+        elif what == "ndx":
+            ls[j] = (t, ndx + 0x10000, tag, raw)
+        elif what == "typeFE":
+            ls[j] = line_of(ndx, 0xFE, tag)
+        elif what == "typeFF":
+            ls[j] = line_of(ndx, 0xFF, tag)
+        elif what == "taglen":
+            big = tag + rbytes(r, 256 - len(tag) + r.randrange(0, 3))
+            ls[j] = (t, ndx, big, ndx.to_bytes(2, "big") + bytes([t, len(big) & 0xFF]) + big)
+        else:
+            ls[j] = (t, ndx, tag, raw[:2] + bytes([(raw[2] + 1) % 254]) + raw[3:])
+        items[k] = ("D", ls)
+    return kind + ":" + what, items
+
+
+def g_roundtrip_problem(items, text):
+    """the property predicate on the implementation: the real parser must return exactly the
+    items' tokens for the text of well-formed items"""
+    p = impl_parse(text)
+    want = g_tokens(items)
+    if p == ("ok", want):
+        return None
+    if p[0] != "ok":
+        return "parse_bf2_file raised %s on a text of the grammar" % p[1]
+    if len(p[1]) != len(want):
+        return "parse_bf2_file returned %d tokens for %d items" % (len(p[1]), len(want))
+    k = next(i for i in range(len(want)) if p[1][i] != want[i])
+    return "token %d is %r, the item says %r" % (k, p[1][k] if p[1][k][0] != "load" else ("load", len(p[1][k][1])),
+                                                 want[k] if want[k][0] != "load" else ("load", len(want[k][1])))
+
+
+def g_data(items, eol, final, enforce=True, text=None):
+    """text: given when it is not simply g_render(items, eol, final) (white space before the line ends)"""
+    return {"items": items_json(items), "eol": eol, "final": final, "enforce": enforce, "text": text}
+
+
+def corr_grammar(cs, n):
+    """whole files of the text grammar: the text is render_file's (checked in Coq against the twin's),
+    the real parser's tokens and the real importer's components are compared with the model's; a
+    second stream violates one clause of item_ok per file (both sides may reject, but must agree)"""
+    r = cs.ctx.rng
+    for i in range(2 * n):
+        excluded = i >= n
+        header = secs = None
+        if r.random() < 0.5:
+            header, secs, info = gen_file(r, max_bytes=r.choice([20, 60, 200]), nsec=r.choice([1, 1, 2, 3]), defects=False)
+            items = items_of_file(header, secs)
+            if r.random() < 0.4:      # interleave lexically odd but well-formed lines
+                for _ in range(r.choice([1, 2])):
+                    items.insert(r.randrange(len(items) + 1), r.choice([g_header_item, g_instr_item])(r))
+                header = None
+        else:
+            items = g_random_items(r)
+        what = "grammar"
+        if excluded:
+            what, items = g_break(r, items)
+            header = None
+        eol = r.choice(["\r\n", "\n"])
+        final = r.random() < 0.75
+        ok = all(g_item_ok(it) for it in items)
+        assert ok != excluded, (what, items)
+        tails = ok and r.random() < 0.25       # white space before the line ends (C13_text_lines)
+        text = g_render(items, eol, final, (lambda: r.choice(G_BLANKS)) if tails else None)
+        if tails:
+            header = None
+        if any(ord(c) > 255 for c in text):
+            continue
+        cs.ctx.dist["grammar:" + (what if excluded else "ok")] += 1
+        p = impl_parse(text)
+        if p[0] == "err" and p[1].startswith("EOther"):
+            continue
+        data = g_data(items, eol, final, text=text if tails else None)
+        jd = None
+        if ok:
+            jd = (lambda items=items, text=text, data=data:
+                  ([("text-roundtrip", g_roundtrip_problem(items, text))] if g_roundtrip_problem(items, text) else [], data))
+        rend = "(%s %s items)" % ("render_file" if final else "render_file_nonl", "CRLF" if eol == "\r\n" else "LF")
+        cs.add("grammar-render",
+               "(let items := %s in Bool.eqb (forallb item_okb items) %s && %s && %s)" % (
+                   qitems(items), qbool(ok), "true" if tails else "str_eqb %s %s" % (rend, qs(text)),
+                   ("res_eqb toks_eqb (Ok (tokens_of items)) %s" % qres(p, qtoks)) if ok else "true"),
+               (what, eol, final, items), judge=jd)
+        cs.add("grammar-parse", "res_eqb toks_eqb (parse_text %s) %s" % (qs(text), qres(p, qtoks)), (what, text), judge=jd)
+        enforce = r.random() < 0.85
+        res = impl_import_text(text, enforce)
+        if res[0] == "err" and res[1].startswith("EOther"):
+            continue
+        if res[0] == "ok" and not all(modelable(v) for v in res[1][0].values()):
+            continue
+        cs.ctx.dist["grammar->" + (res[1] if res[0] == "err" else "ok%d" % len(res[1][1]))] += 1
+        jd2 = jd
+        if header is not None and final:
+            jd2 = (lambda text=text, header=header, secs=secs, enforce=enforce:
+                   (judge_file(text, header, secs, enforce, hw_names()), file_data(text, header, secs, enforce)))
+        cs.add("grammar-import", "res_eqb file_eqb (bf2_import_text %s %s) %s" % (qs(text), qbool(enforce), qres(res, qfile)),
+               (what, enforce, text), judge=jd2)
+    # every code point 0..255 at the end of a header value and of a parameter value, before the line end
+    for c in range(256):
+        for text in ("##N: a%s\r\n" % chr(c), "#>X k=v%s\n" % chr(c)):
+            p = impl_parse(text)
+            if p[0] == "err" and p[1].startswith("EOther"):
+                continue
+            cs.add("grammar-char", "res_eqb toks_eqb (parse_text %s) %s" % (qs(text), qres(p, qtoks)), text)
+
+
 def extents_of_lines(ls):
     """(address, data) extents of well-formed lines in file order, merged while contiguous"""
     ext = []
@@ -1039,6 +1393,7 @@ def correspondence(ctx):
     corr_int(cs, ctx.budget(150, 1500))
     corr_tokens(cs, ctx.budget(220, 3000))
     corr_text(cs, ctx.budget(120, 1500))
+    corr_grammar(cs, ctx.budget(110, 1500))
     ctx.sample({"op": cs.descr[0][0], "input": repr(cs.descr[0][1])[:300]})
     bad = ctx.coq_eval("c13", IMPORTS, cs.exprs, shard=60 if q else 120, timeout=1200)
     if bad is None:
@@ -1229,6 +1584,53 @@ def file_data(text, header, secs, enforce):
     return d
 
 
+def search_grammar(ctx, r, escalate):
+    """text grammar: every text rendered from well-formed items must be read back by the real
+    parser as exactly those items (both line ends, with and without final line end)"""
+    def check(items, label):
+        for eol in ("\r\n", "\n"):
+            for final in (True, False):
+                for tails in (False, True):
+                    text = g_render(items, eol, final, (lambda: r.choice(G_BLANKS)) if tails else None)
+                    ctx.case(("grammar", text))
+                    pr = g_roundtrip_problem(items, text)
+                    if pr:
+                        report(ctx, [("text-roundtrip", "%s (%s, eol %r, final line end %s%s): %s" % (
+                            label, items_json(items)[:3], eol, final, ", white space before the line ends" if tails else "", pr))],
+                            g_data(items, eol, final, text=text if tails else None))
+    # every code point 0..255 at every lexical position where the grammar allows it
+    makers = [
+        ("header-name", lambda x: ("H", x, "v")), ("header-value", lambda x: ("H", "N", x)),
+        ("instr-name", lambda x: ("I", x, [])), ("instr-name-p", lambda x: ("I", x, [("k", "v")])),
+        ("key", lambda x: ("I", "X", [(x, "v")])), ("value", lambda x: ("I", "X", [("k", x)])),
+        ("key2", lambda x: ("I", "X", [("a", "b"), (x, "v")])), ("value1", lambda x: ("I", "X", [("k", x), ("a", "b")])),
+    ]
+    for c in range(256):
+        for label, mk in makers:
+            for x in (chr(c), "a" + chr(c), chr(c) + "a", "a" + chr(c) + "b"):
+                it = mk(x)
+                if g_item_ok(it):
+                    ctx.dist["search:grammar-char"] += 1
+                    check([it], label)
+    # header comments directly before / after / between data groups, adjacent groups, empty parameter lists
+    d1, d2 = ("D", [line_of(0, 0x35, b"\x03\x00\x00A")]), ("D", [line_of(1, 0x36, b"\x03\x00\x00B"), line_of(2, 0x36, b"")])
+    h, i0, i1 = ("H", "Creator", "tool"), ("I", "REBOOT", []), ("I", "SELECT", [("FILTER", "01 01 00 9B")])
+    for items in ([h, d1], [d1, h], [h, d1, h, d2, h], [d1, d2], [i0, d1, i0], [i1, d1, i1, d2], [h], [i0], [i1], [d1],
+                  [h, h, i0, i1, d1, d2, i0, h]):
+        check(items, "layout")
+    n = ctx.budget(400, 5000) * (4 if escalate else 1)
+    for k in range(n):
+        if r.random() < 0.4:
+            header, secs, info = gen_file(r, max_bytes=r.choice([20, 60, 200]), nsec=r.choice([1, 2, 3]), defects=False)
+            items = items_of_file(header, secs)
+        else:
+            items = g_random_items(r)
+        if not all(g_item_ok(it) for it in items):
+            continue
+        ctx.dist["search:grammar-file"] += 1
+        check(items, "random")
+
+
 def search(ctx):
     import random
     r = ctx.rng
@@ -1315,18 +1717,27 @@ def search(ctx):
         pr = judge_file(text, header, secs, True, names, r)
         if pr:
             report(ctx, pr, file_data(text, header, secs, True))
+    # 5. text grammar round trip
+    search_grammar(ctx, r, escalate)
     ctx.extra.pop("_per_kind", None)
     ctx.extra["rule"] = (
         "correspondence: unit level (bf2_unpack_payload/bf2_convert_payload on well-formed, gapped, overlapping, colliding, "
         "negative-length, truncated line lists; exec_bf2instrs on random instruction dicts incl. malformed values and wrong types; "
         "pfid2_filter_to_str; annotations incl. non-ASCII versions; hex2bin; int()), token level (bf2_import with the parser replaced by "
         "generated token streams and mutations of them: extra REBOOT/CHECK_FWVER, unsupported and '*' protocols, duplicated/deleted tokens, "
-        "continuation groups, empty loads) and text level (parse_bf2_file and bf2_import on rendered BF2 texts with line damage); "
+        "continuation groups, empty loads), text level (parse_bf2_file and bf2_import on rendered BF2 texts with line damage) and grammar "
+        "level (item lists of header comments, instruction lines without/with key=value parameters and data groups: the text is "
+        "Model.Bf2Render.render_file's - checked in Coq against the harness's twin - and goes through the real parse_bf2_file and bf2_import, "
+        "CRLF/LF, with/without final line end; a second stream violates exactly one clause of item_ok per file; every code point 0..255 "
+        "before the line end); "
         "search: every line size 1..250 for every blob tag type, a gap at every line index, images around 64/128 KiB with lines ending at "
         "and straddling the page boundary, random 1..5-section files over every mapped tag type plus unknown/unmapped types, ignored 0x34/0x48 "
         "sections, debug and release versions, with/without the marker, and a few images up to 200000 bytes; the real implementation's "
         "components are compared with the image the generator started from, the stated tags, the rejections, and the filter expression text is "
-        "evaluated by an independent evaluator against the filter bytes. non-trivial = everything except empty line lists / filters "
+        "evaluated by an independent evaluator against the filter bytes; text grammar: every code point 0..255 at every lexical position "
+        "the grammar allows, layouts of header comments around data groups, and random well-formed item lists must be read back by the "
+        "real parser as exactly their items, with both line ends, with and without final line end, with and without white space before the "
+        "line ends. non-trivial = everything except empty line lists / filters "
         "shorter than 4 bytes; distinct by input")
 
 
@@ -1345,7 +1756,19 @@ def replay(ctx, data):
         d = f["data"]
         print("kind:", f["kind"])
         print("recorded:", f["detail"])
-        if d.get("secs") is not None:
+        if d.get("items") is not None:
+            items = items_from_json(d["items"])
+            text = d.get("text") or g_render(items, d["eol"], d["final"])
+            print("BF2 text (%d chars):" % len(text))
+            print(repr(text[:1500]))
+            print("items:", items_json(items)[:6])
+            print("implementation:", repr(impl_parse(text))[:1500])
+            print("the items' tokens:", repr(g_tokens(items))[:1500])
+            pr = g_roundtrip_problem(items, text) if all(g_item_ok(it) for it in items) else None
+            if pr:
+                print("  VIOLATED: text-roundtrip:", pr)
+            rc |= bool(pr)
+        elif d.get("secs") is not None:
             secs = [sec_from_json(j) for j in d["secs"]]
             header = [(n, p) for n, p in d["header"]]
             text = d.get("text")
